@@ -31,6 +31,8 @@ pub enum Op {
     Cancel(u16),
     /// poll every live request until nothing changes
     Settle,
+    /// this many seconds pass (tokio's clock) without anything else happening
+    Elapse(u16),
 }
 
 #[derive(Clone, Debug, Serialize, Deserialize, PartialEq, Eq, Hash)]
@@ -84,7 +86,7 @@ impl Service<Request<Bytes>> for Inner {
             let g = s.gauge.entry(peer).or_insert(0);
             *g += 1;
             let g = *g;
-            if g > s.max && s.over_limit.is_none() {
+            if g > s.max && s.over_limit.is_none() && peer < 250 {
                 s.over_limit = Some(format!("peer {peer}: {g} requests inside the service, limit {}", s.max));
             }
             s.invoked.insert(id);
@@ -134,7 +136,7 @@ pub fn check(case: &Case, obs: &mut Obs) -> Result<(), Fail> {
     // A tokio context is present, as it always is under anemo: an implementation may spawn tasks
     // or use tokio's timers. The harness still owns every poll of the request futures; tasks the
     // implementation spawned are run to quiescence after each step.
-    let rt = tokio::runtime::Builder::new_current_thread().enable_all().build().map_err(|e| Fail::Inconclusive(e.to_string()))?;
+    let rt = tokio::runtime::Builder::new_current_thread().enable_all().start_paused(true).build().map_err(|e| Fail::Inconclusive(e.to_string()))?;
     let _enter = rt.enter();
     macro_rules! drive {
         () => {
@@ -305,6 +307,10 @@ pub fn check(case: &Case, obs: &mut Obs) -> Result<(), Fail> {
                 }
             }
             Op::Settle => settle!(),
+            Op::Elapse(secs) => {
+                rt.block_on(tokio::time::advance(std::time::Duration::from_secs(*secs as u64)));
+                drive!();
+            }
         }
         for p in 0..case.peers {
             let run = running_of(&shared, p);
@@ -371,7 +377,7 @@ impl Part for Histories {
     type Case = Case;
     fn name(&self) -> &'static str { "histories" }
     fn rule(&self) -> &'static str {
-        "histories of Arrive/Poll/Release(ok|err)/Cancel/Settle over max 0-5, both wait modes, 1-4 peers, 1-3 services from one layer plus a clone; futures polled by hand in generated order; per-step gauge<=max, ReturnError admission iff running<max at first poll, Block: running=min(max,live) at quiescence, final probe that exactly max fresh requests per peer run; non-trivial = the limit was binding at some point AND a running request was cancelled or failed; distinct by whole history"
+        "histories of Arrive/Poll/Release(ok|err)/Cancel/Settle/Elapse(1 s - 66 min of tokio's paused clock) over max 0-5, both wait modes, 1-4 peers, 1-3 services from one layer plus a clone; futures polled by hand in generated order; per-step gauge<=max, ReturnError admission iff running<max at first poll, Block: running=min(max,live) at quiescence, final probe that exactly max fresh requests per peer run; non-trivial = the limit was binding at some point AND a running request was cancelled or failed; distinct by whole history"
     }
     fn strategy(&self, _t: Tier) -> BoxedStrategy<Case> {
         let op = prop_oneof![
@@ -380,6 +386,7 @@ impl Part for Histories {
             3 => (any::<u16>(), prop::bool::weighted(0.7)).prop_map(|(i, ok)| Op::Release(i, ok)),
             2 => any::<u16>().prop_map(Op::Cancel),
             2 => Just(Op::Settle),
+            1 => prop_oneof![1u16..120, 290u16..4000].prop_map(Op::Elapse),
         ];
         (0u8..6, any::<bool>(), 1u8..5, 1u8..4, 0u8..5, prop::collection::vec(op, 0..60))
             .prop_map(|(max, block, peers, services, id_layout, ops)| Case { max, block, peers, services, id_layout, ops })
@@ -397,7 +404,7 @@ pub struct ManyCase {
     /// distinct peers that each made one (completed) request before the probe
     pub earlier_peers: u16,
     /// how many of the earlier peers still have a request running during the probe
-    pub still_running: u8,
+    pub still_running: u16,
 }
 
 fn wide_peer_id(n: u32) -> PeerId {
@@ -411,13 +418,13 @@ impl Part for ManyPeers {
     type Case = ManyCase;
     fn name(&self) -> &'static str { "many-peers" }
     fn rule(&self) -> &'static str {
-        "0-3000 distinct peers each complete one request through the layered service (0-8 of them keep one running), then two peers never seen before: P fills its `max` slots, Q sends one request; oracle: Q's request enters the service at once (P's load does not consume Q's slots), P's next request does not, and after P's requests finish P has `max` slots again; non-trivial = at least 1000 earlier peers; distinct by case"
+        "0-3000 distinct peers each complete one request through the layered service (0-8, or more than a thousand, of them keep one running), then two peers never seen before: P fills its `max` slots, Q sends one request; oracle: Q's request enters the service at once (P's load does not consume Q's slots), P's next request does not, and after P's requests finish P has `max` slots again; non-trivial = at least 1000 earlier peers; distinct by case"
     }
     fn fixed_cases(&self) -> Vec<ManyCase> {
-        vec![ManyCase { max: 1, block: false, earlier_peers: 1100, still_running: 0 }, ManyCase { max: 2, block: true, earlier_peers: 2100, still_running: 3 }]
+        vec![ManyCase { max: 1, block: false, earlier_peers: 1100, still_running: 0 }, ManyCase { max: 2, block: true, earlier_peers: 2100, still_running: 3 }, ManyCase { max: 1, block: false, earlier_peers: 1200, still_running: 1100 }]
     }
     fn strategy(&self, _t: Tier) -> BoxedStrategy<ManyCase> {
-        (1u8..4, any::<bool>(), prop_oneof![1 => 0u16..50, 1 => 50u16..1500, 1 => 900u16..3000], 0u8..9)
+        (1u8..4, any::<bool>(), prop_oneof![1 => 0u16..50, 1 => 50u16..1500, 1 => 900u16..3000], prop_oneof![3 => 0u16..9, 1 => 1000u16..1300])
             .prop_map(|(max, block, earlier_peers, still_running)| ManyCase { max, block, earlier_peers, still_running })
             .boxed()
     }
@@ -441,7 +448,7 @@ impl Part for ManyPeers {
         };
         let mut kept = Vec::new();
         for n in 0..case.earlier_peers as u32 {
-            let (id, mut fut) = call(&mut svc, n, if (n as usize) < case.still_running as usize { 10 + n as u8 } else { 250 }); // gauge tag: distinct for the few that keep running; the others run one at a time
+            let (id, mut fut) = call(&mut svc, n, if (n as usize) < case.still_running as usize { if n < 200 { 10 + n as u8 } else { 251 } } else { 250 }); // gauge tag: distinct for the few that keep running; the others run one at a time
             let r = fut.as_mut().poll(&mut cx);
             drive();
             vensure!(r.is_pending() && shared.lock().unwrap().invoked.contains(&id), "c18:refused-below-limit", "peer number {n} (first request ever) was not admitted");
@@ -655,6 +662,104 @@ impl Part for FirstContactRace {
     }
 }
 
+// ---------------------------------------------------------------- behind a real network: slots of a connection that is lost
+
+#[derive(Clone, Debug, Serialize, Deserialize, PartialEq, Eq, Hash)]
+pub struct NetCase {
+    pub max: u8,
+    /// how the connection with requests in flight ends: 0 = the caller disconnects, 1 = the caller's
+    /// network shuts down and a new one with the same identity comes back, 2 = the serving side disconnects
+    pub how: u8,
+}
+
+#[derive(Clone, Default)]
+struct SlowEcho(Arc<Mutex<u32>>);
+
+#[anemo::async_trait]
+impl crate::props::c17::s1::echo_server::Echo for SlowEcho {
+    async fn ping(&self, r: Request<crate::props::c17::Msg>) -> Result<Response<crate::props::c17::Msg>, Status> {
+        if r.body().text == "hang" {
+            *self.0.lock().unwrap() += 1;
+            futures::future::pending::<()>().await;
+        }
+        Ok(Response::new(r.body().clone()))
+    }
+    async fn ping_pong(&self, r: Request<crate::props::c17::Msg>) -> Result<Response<crate::props::c17::Msg>, Status> { Ok(Response::new(r.body().clone())) }
+    async fn pin(&self, r: Request<crate::props::c17::Msg>) -> Result<Response<crate::props::c17::Msg>, Status> { Ok(Response::new(r.body().clone())) }
+    async fn raw(&self, _r: Request<crate::props::c17::Msg>) -> Result<Response<Bytes>, Status> { Ok(Response::new(Bytes::new())) }
+}
+
+pub struct OverNetwork;
+impl Part for OverNetwork {
+    type Case = NetCase;
+    fn name(&self) -> &'static str { "over-network" }
+    fn rule(&self) -> &'static str {
+        "a generated rpc server whose `ping` method sits behind InflightLimitLayer(max 1-3, ReturnError), served by a network on the fabric; a peer fills its slots with requests that never finish, one more is refused with TooManyRequests, then the connection ends with those requests in flight (caller disconnects / caller shuts down and comes back with the same identity / server disconnects) and the peer connects again; oracle: after the reconnect the peer has all its slots again (a fresh request is served); non-trivial = every case; distinct by case"
+    }
+    fn strategy(&self, _t: Tier) -> BoxedStrategy<NetCase> {
+        (1u8..4, 0u8..3).prop_map(|(max, how)| NetCase { max, how }).boxed()
+    }
+    fn run(&self, c: &NetCase, obs: &mut Obs) -> Result<(), Fail> {
+        use crate::props::c17::{s1, Msg};
+        use crate::simnet::*;
+        let c = c.clone();
+        run_sim(47, 1, |sim| async move {
+            let slow = SlowEcho::default();
+            let server = s1::echo_server::EchoServer::new(slow.clone())
+                .add_layer_for_ping(anemo::codegen::InboundRequestLayer::new(InflightLimitLayer::new(c.max as usize, WaitMode::ReturnError)));
+            let sspec = NodeSpec::new(0);
+            let s = sim.start_node(&sspec, anemo::Router::new().add_rpc_service(server)).map_err(|e| Fail::Inconclusive(e.to_string()))?;
+            let cspec = NodeSpec::new(1);
+            let mut client = sim.node_with(cspec.clone())?;
+            let s_addr = sspec.addr;
+            let connect = move |net: anemo::Network| async move {
+                match within(20_000, net.connect(s_addr)).await { Ok(Ok(_)) => Ok(()), _ => Err(Fail::Inconclusive("connect failed".into())) }
+            };
+            connect(client.net.clone()).await?;
+            let s_id = s.peer_id();
+            let call = move |net: anemo::Network, text: &'static str| async move {
+                let peer = net.peer(s_id).ok_or_else(|| "no peer".to_string())?;
+                let mut cl = s1::echo_client::EchoClient::new(peer);
+                cl.ping(Msg { id: 1, text: text.into(), blob: vec![], poison: Default::default() }).await.map(|_| ()).map_err(|st| format!("{:?}", st.status()))
+            };
+            let mut hanging = Vec::new();
+            for _ in 0..c.max {
+                hanging.push(tokio::spawn(call(client.net.clone(), "hang")));
+            }
+            for _ in 0..200 { if *slow.0.lock().unwrap() >= c.max as u32 { break; } sleep_ms(5).await; }
+            vensure!(*slow.0.lock().unwrap() == c.max as u32, "c18:refused-below-limit", "only {} of max {} requests entered the handler", *slow.0.lock().unwrap(), c.max);
+            match within(5_000, call(client.net.clone(), "ok")).await {
+                Ok(Err(e)) if e.contains("TooManyRequests") => {}
+                other => vfail!("c18:over-limit", "with {} requests of the peer in the handler, one more was not refused with TooManyRequests: {:?}", c.max, other),
+            }
+            // the connection ends with the requests in flight
+            match c.how % 3 {
+                0 => { let _ = client.net.disconnect(s.peer_id()); }
+                1 => {
+                    let _ = within(5_000, client.net.shutdown()).await;
+                    for _ in 0..100 { if !sim.fabric.is_bound(cspec.addr) { break; } sleep_ms(20).await; }
+                    client = sim.node_with(cspec.clone())?;
+                }
+                _ => { let _ = s.disconnect(client.id()); }
+            }
+            for h in hanging { h.abort(); }
+            sleep_ms(300).await;
+            connect(client.net.clone()).await?;
+            for k in 0..c.max {
+                match within(5_000, call(client.net.clone(), "ok")).await {
+                    Ok(Ok(())) => {}
+                    other => vfail!("c18:capacity-leak", "after its connection ended with {} requests in flight ({}), the peer reconnected and request number {} was not served: {:?}", c.max, ["the caller disconnected", "the caller restarted", "the server disconnected it"][c.how as usize % 3], k + 1, other),
+                }
+            }
+            sim.health()?;
+            check_no_panics("limiter behind a network")?;
+            obs.evals(2 * c.max as u64 + 1);
+            obs.nontrivial(&c);
+            Ok(())
+        })
+    }
+}
+
 pub fn run(tier: Tier) -> i32 {
     let mut ctx = Ctx::new("C18", tier);
     ctx.assume("tokio's Semaphore and dashmap are trusted; the harness owns every poll of the request futures (no-op waker), so interleavings are generated, not sampled; a tokio context is present and tasks the implementation may spawn are run to quiescence after every step");
@@ -662,5 +767,6 @@ pub fn run(tier: Tier) -> i32 {
     ctx.run_part(ManyPeers, tier.pick(300, 60_000));
     ctx.run_part(CancelStorm, tier.pick(400, 60_000));
     ctx.run_part_threads(FirstContactRace, tier.pick(24, 400), 2);
+    ctx.run_part(OverNetwork, tier.pick(60, 600));
     ctx.finish()
 }
